@@ -400,11 +400,124 @@ def rand_mp(rng, nw):
     return R(kind, "mv", terms=forms[py], ao=ao, py=py)
 
 
+def describe_call(rec, arrs, batch, lo, hi, via, bs=0):
+    nw, shots = len(arrs[0][0]), len(arrs[0])
+    a = np.array(arrs if batch else arrs[0], dtype=np.int64)
+    kw = {}
+    if (lo, hi) != (0, shots):
+        kw["shot_range"] = (lo, hi)
+    if bs:
+        kw["bin_size"] = bs
+    call = f"{describe(rec, LABELS)}.{'process_counts' if via == 'counts' else 'process_samples'}"
+    rp = {"mp": rec, "measurement": describe(rec, LABELS), "samples": a.tolist(), "wire_order": [str(w) for w in LABELS[:nw]], "kwargs": kw,
+          "via": via, "trace": {"arrs": arrs, "batch": batch, "lo": lo, "hi": hi, "bs": bs}}
+    return call, rp, a, kw
+
+
+def observe_call(rec, arrs, batch, lo, hi, bs, via, rp):
+    """call the real measurement process; -> the exact observation of every batch entry (Malformed / any exception propagate)"""
+    nw, shots = len(arrs[0][0]), len(arrs[0])
+    order = LABELS[:nw]
+    k = nsel(rec, nw)
+    mp = build(rec, LABELS)
+    a = np.array(arrs if batch else arrs[0], dtype=np.int64)
+    kw = {}
+    if (lo, hi) != (0, shots):
+        kw["shot_range"] = (lo, hi)
+    if bs:
+        kw["bin_size"] = bs
+    if via == "counts":
+        d = {}
+        for s in ["".join(map(str, r)) for r in arrs[0][lo:hi]]:
+            d[s] = d.get(s, 0) + 1
+        rp["counts"] = d
+        outs = [mp.process_counts(d, order)]
+    else:
+        out = mp.process_samples(a, order, **kw)
+        if batch:
+            if len(out) != batch:
+                raise Malformed(f"{len(out)} results for a batch of {batch}")
+            outs = list(out)
+        else:
+            outs = [out]
+    n = hi - lo
+    obs = []
+    for o in outs:
+        if bs:
+            nb = n // bs
+            if rec["kind"] == "probs":
+                o = np.asarray(o)
+                if o.shape != (2 ** k, nb):
+                    raise Malformed(f"binned probabilities of shape {o.shape}")
+                o = [canon(rec, o[:, b], k, bs) for b in range(nb)]
+            else:
+                if len(o) != nb:
+                    raise Malformed(f"{len(o)} results for {nb} bins")
+                o = [canon(rec, x, k, bs) for x in o]
+        else:
+            o = canon(rec, o, k, n)
+        obs.append(o)
+    return obs
+
+
+def run_trace_spec(records, name):
+    wd2 = lib.workdir(PID, name)
+    (wd2 / "traces.json").write_text(json.dumps(records))
+    r = lib.run_tlc("Trace_FromSamples", lib.cfg(init="TInit", next_="TNext", constants={"NCHUNKS": 16}), wd2,
+                    env={"TRACE_FILE": str(wd2 / "traces.json")}, timeout=3000)
+    lib.require_ok(r, "Trace_FromSamples")
+    verd = {t[1] - 1: t[2] for t in r.tuples if t[0] == "V"}
+    if len(verd) != len(records):
+        raise lib.MachineryError(f"verdicts not total: {len(verd)} of {len(records)}")
+    return r, verd
+
+
+def replay(path, tier, seed):
+    """re-run the case of a replay file through the real code (replay cases: against the expected value TLC printed in the original
+    run; trace cases: the new observation is validated by Trace_FromSamples.tla)"""
+    doc = json.load(open(path))
+    rp, rec = doc["replay"], doc["replay"]["mp"]
+    viol = []
+    if "call" in rp:
+        X = rp["samples"]
+        nw = len(X[0])
+        mp = build(rec, LABELS)
+        try:
+            if rp["call"] == "process_samples":
+                why = compare(rec, mp.process_samples(np.array(X, dtype=np.int64), LABELS[:nw]), rp["expected"], nw)
+            else:
+                why = compare(rec, mp.process_counts(dict(rp["counts"]), LABELS[:nw]), rp["expected"], nw, via="counts")
+        except Exception as e:  # noqa: BLE001
+            why = f"raised {type(e).__name__}: {e}"
+        if why:
+            viol.append(Violation(key=doc["key"], detail=f"{rp['measurement']}.{rp['call']}: {why}", replay=rp))
+        states = 0
+    else:
+        t = rp["trace"]
+        try:
+            obs = observe_call(rec, t["arrs"], t["batch"], t["lo"], t["hi"], t["bs"], rp["via"], dict(rp))
+            records = [{"nw": len(t["arrs"][0][0]), "X": t["arrs"][bi], "mp": rec, "lo": t["lo"], "hi": t["hi"], "bs": t["bs"], "via": rp["via"],
+                        "o": o} for bi, o in enumerate(obs)]
+            r, verd = run_trace_spec(records, "replay")
+            states = r.distinct
+            bad = [i for i in range(len(records)) if verd[i] not in ("ok", "ok-strided")]
+            if bad:
+                viol.append(Violation(key=doc["key"], detail=f"{rp['measurement']}: batch entries {bad} are not the statistic of the samples "
+                                      f"(observed {[records[i]['o'] for i in bad]})", replay=rp))
+        except lib.MachineryError:
+            raise
+        except Exception as e:  # noqa: BLE001
+            states = 0
+            viol.append(Violation(key=doc["key"], detail=f"{rp['measurement']}: {type(e).__name__}: {e}", replay=rp))
+    return CheckResult(coverage={"states": states, "transitions": states, "traces_validated_against_impl": 1, "evaluations": 1,
+                                 "distinct_nontrivial": 1, "rule": "one replayed case", "exhaustive": False, "samples": []}, violations=viol)
+
+
 def run(tier, seed):
     quick = tier == "quick"
     rng = random.Random(seed)
     max_w, max_s = (3, 4) if quick else (3, 5)
-    stride, big, stride2, big2 = (8, 9, 32, 12) if quick else (4, 12, 32, 15)
+    stride, big, stride2, big2 = (6, 8, 32, 12) if quick else (4, 12, 32, 15)
     mps = [mp_list(nw, random.Random(seed * 1000 + nw)) for nw in range(1, max_w + 1)]
     t_start = time.time()
     wd = lib.workdir(PID, "gen")
@@ -528,48 +641,9 @@ def run(tier, seed):
         if bs == 0 and not batch and rec["kind"] != "sample" and not (rec["src"] == "mvlist" and rec["kind"] == "counts") \
                 and not (rec["src"] == "wires" and not rec["sel"]) and rng.random() < 0.25:
             via = "counts"
-        order = LABELS[:nw]
-        k = nsel(rec, nw)
-        mp = build(rec, LABELS)
-        a = np.array(arrs if batch else arrs[0], dtype=np.int64)
-        kw = {}
-        if (lo, hi) != (0, shots):
-            kw["shot_range"] = (lo, hi)
-        if bs:
-            kw["bin_size"] = bs
-        call = f"{describe(rec, LABELS)}.{'process_counts' if via == 'counts' else 'process_samples'}"
-        rp = {"mp": rec, "measurement": describe(rec, LABELS), "samples": a.tolist(), "wire_order": [str(w) for w in order], "kwargs": kw, "via": via}
+        call, rp, a, kw = describe_call(rec, arrs, batch, lo, hi, via, bs)
         try:
-            if via == "counts":
-                rows = ["".join(map(str, r)) for r in arrs[0][lo:hi]]
-                d = {}
-                for s in rows:
-                    d[s] = d.get(s, 0) + 1
-                rp["counts"] = d
-                outs = [mp.process_counts(d, order)]
-            else:
-                out = mp.process_samples(a, order, **kw)
-                if batch:
-                    if len(out) != batch:
-                        raise Malformed(f"{len(out)} results for a batch of {batch}")
-                    outs = list(out)
-                else:
-                    outs = [out]
-            n = hi - lo
-            for bi, o in enumerate(outs):
-                if bs:
-                    nb = n // bs
-                    if rec["kind"] == "probs":
-                        o = np.asarray(o)
-                        if o.shape != (2 ** k, nb):
-                            raise Malformed(f"binned probabilities of shape {o.shape}")
-                        o = [canon(rec, o[:, b], k, bs) for b in range(nb)]
-                    else:
-                        if len(o) != nb:
-                            raise Malformed(f"{len(o)} results for {nb} bins")
-                        o = [canon(rec, x, k, bs) for x in o]
-                else:
-                    o = canon(rec, o, k, n)
+            for bi, o in enumerate(observe_call(rec, arrs, batch, lo, hi, bs, via, rp)):
                 records.append({"nw": nw, "X": arrs[bi], "mp": rec, "lo": lo, "hi": hi, "bs": bs, "via": via, "o": o})
                 meta.append((call, rp, rec, bi))
             t_batched += bool(batch)
@@ -600,14 +674,7 @@ def run(tier, seed):
             o[0] = [1 - o[0][0]] + o[0][1:] if bitkind(t["mp"]) else pair(Fraction(*o[0]) + 1)
         neg.append(t)
     records += neg
-    wd2 = lib.workdir(PID, "trace")
-    (wd2 / "traces.json").write_text(json.dumps(records))
-    r = lib.run_tlc("Trace_FromSamples", lib.cfg(init="TInit", next_="TNext", constants={"NCHUNKS": 16}), wd2,
-                    env={"TRACE_FILE": str(wd2 / "traces.json")}, timeout=3000)
-    lib.require_ok(r, "Trace_FromSamples")
-    verd = {t[1] - 1: t[2] for t in r.tuples if t[0] == "V"}
-    if len(verd) != len(records):
-        raise lib.MachineryError(f"verdicts not total: {len(verd)} of {len(records)}")
+    r, verd = run_trace_spec(records, "trace")
     for j in range(len(neg)):
         if verd[n_real + j] in ("ok", "ok-strided"):
             raise lib.MachineryError(f"negative control accepted by Trace_FromSamples: {neg[j]}")
